@@ -1192,6 +1192,18 @@ func judge(c Case, o *vh.Obs) {
 	o.Note("validated; every reference resolves")
 }
 
+// judgeSafely turns a panic of the judge itself into a failure (the library's
+// own panics are already caught in run).
+func judgeSafely(c Case, o *vh.Obs) {
+	defer func() {
+		if r := recover(); r != nil {
+			site := vh.PanicSite(debug.Stack())
+			o.Failf("panic@"+site, "panic: %v (at %s)", r, site)
+		}
+	}()
+	judge(c, o)
+}
+
 func editsString(es []Edit) string {
 	var parts []string
 	for _, e := range es {
@@ -1380,7 +1392,35 @@ func init() {
 		"tags are judged on the document root only, for the document's own schema, against the regime and the addons listed in the validated document (requirements included)",
 	)
 	vh.Enum("corpus", enumCorpus, judge)
-	vh.Enum("single", enumSingle, judge)
+	// `single` drives itself so that the quick tier (a sample of the defined
+	// values) is not reported as an exhaustive enumeration.
+	vh.Custom("single", func(t *testing.T, r *vh.Runner) {
+		r.DistinctByConstruction()
+		complete := true
+		violations, n := 0, 0
+		enumSingle(func(c Case) bool {
+			n++
+			if n&0x3ff == 0 && vh.DeadlinePassed() {
+				complete = false
+				return false
+			}
+			o := &vh.Obs{}
+			judgeSafely(c, o)
+			if r.Observe(t, c, o) {
+				violations++
+				complete = false
+			}
+			return violations < 3
+		})
+		r.MarkExhaustive(complete && vh.Thorough())
+	}, func(raw json.RawMessage, o *vh.Obs) {
+		var c Case
+		if err := json.Unmarshal(raw, &c); err != nil {
+			o.Failf("harness:bad-replay", "%v", err)
+			return
+		}
+		judge(c, o)
+	})
 	vh.Rapid("double", 12_000, 600_000, genDouble, judge)
 }
 
